@@ -419,7 +419,7 @@ static std::string log2str(double e)
   return buf;
 }
 
-template <class Chk, class Msg>
+template <class Msg>
 static void finish(pbt::SweepResult<uint32_t> &r, const Acc &a, const char *name, const char *const *clsNames, int ncls, bool ordered,
     Msg msg, const char *errKind)
 {
@@ -435,18 +435,18 @@ static void finish(pbt::SweepResult<uint32_t> &r, const Acc &a, const char *name
   if (errKind && a.maxErr >= 0) {
     std::ostringstream js;
     js << "{\"kind\":" << pbt::json_str(errKind) << ",\"max\":" << a.maxErr << ",\"log2\":" << log2str(a.maxErr) << ",\"at_bits\":" << a.argMax
-       << ",\"at\":" << pbt::json_str(pbt::to_text(f_of(a.argMax))) << "}";
+       << ",\"at_float\":" << pbt::json_str(pbt::to_text(f_of(a.argMax))) << "}";
     pbt::set_extra(std::string("max_error.") + name, js.str());
     r.samples.push_back(a.argMax);
   }
-  (void)sizeof(Chk);
 }
 
 // plain (unordered) sweep over all bit patterns with oracle chk(bits)
 template <class Chk, class Msg>
 static void plain_sweep(const char *name, Chk chk, Msg msg, const char *const *clsNames, int ncls, const char *errKind,
-    std::initializer_list<uint32_t> samples)
+    std::initializer_list<uint32_t> sampleList)
 {
+  const std::vector<uint32_t> samples(sampleList);  // the list's backing array dies with the caller's full-expression
   pbt::sweep<uint32_t>(
       name,
       [=](pbt::SweepResult<uint32_t> &r) {
@@ -463,7 +463,7 @@ static void plain_sweep(const char *name, Chk chk, Msg msg, const char *const *c
         });
         for (uint32_t s : samples)
           r.samples.push_back(s);
-        finish<Chk>(r, a, name, clsNames, ncls, false, msg, errKind);
+        finish(r, a, name, clsNames, ncls, false, msg, errKind);
       },
       [=](const uint32_t &b, pbt::Ctx &ctx) {
         const Res x = chk(b);
@@ -502,7 +502,7 @@ static void pack_sweep(const char *name)
           }
         });
         r.samples = {0xbf800000u, 0x00000000u, 0x3b000000u, 0x3f000000u, 0x3f7fffffu, 0x3f800000u};
-        finish<int>(r, a, name, PACK_CLS, 5, true, msg_pack<K>, nullptr);
+        finish(r, a, name, PACK_CLS, 5, true, msg_pack<K>, nullptr);
         uint64_t nlev = 0;
         for (int i = 0; i < 8; ++i)
           nlev += (uint64_t)__builtin_popcount(a.levels[i]);
@@ -518,15 +518,18 @@ static void pack_sweep(const char *name)
       });
 }
 
+// distinct closure types so that every oracle is inlined into its own tight loop
+#define FN(f) [](uint32_t b) { return f(b); }
+
 static void register_properties()
 {
-  plain_sweep("rcp", chk_rcp, msg_rcp, RCP_CLS, 4, "relative error |rcp(x)*x-1|", {0x00800000u, 0x3f800000u, 0xc0490fdbu, 0x7e7fffffu});
-  plain_sweep("rsqrt", chk_rsqrt, msg_rsqrt, RSQRT_CLS, 4, "relative error |rsqrt(x)*sqrt(x)-1|", {0x00800000u, 0x3f800000u, 0x40490fdbu, 0x7e7fffffu});
-  plain_sweep("rcp_safe", chk_rcp_safe, msg_rcp_safe, RCPS_CLS, 5, "relative error on rcp's domain", {0x00000000u, 0x80000000u, 0x00000001u, 0x807fffffu, 0x7f7fffffu});
-  plain_sweep("sign", chk_sign, msg_sign, SIGN_CLS, 5, nullptr, {0x00000000u, 0x80000000u, 0x80000001u, 0x7f800000u, 0xff800000u});
-  plain_sweep("deg2rad", chk_deg2rad, msg_deg2rad, D2R_CLS, 4, "relative error vs x*pi/180 (normal results)", {0x43340000u, 0x00000001u, 0x7f7fffffu, 0xff800000u});
+  plain_sweep("rcp", FN(chk_rcp), FN(msg_rcp), RCP_CLS, 4, "relative error |rcp(x)*x-1|", {0x00800000u, 0x3f800000u, 0xc0490fdbu, 0x7e7fffffu});
+  plain_sweep("rsqrt", FN(chk_rsqrt), FN(msg_rsqrt), RSQRT_CLS, 4, "relative error |rsqrt(x)*sqrt(x)-1|", {0x00800000u, 0x3f800000u, 0x40490fdbu, 0x7e7fffffu});
+  plain_sweep("rcp_safe", FN(chk_rcp_safe), FN(msg_rcp_safe), RCPS_CLS, 5, "relative error on rcp's domain", {0x00000000u, 0x80000000u, 0x00000001u, 0x807fffffu, 0x7f7fffffu});
+  plain_sweep("sign", FN(chk_sign), FN(msg_sign), SIGN_CLS, 5, nullptr, {0x00000000u, 0x80000000u, 0x80000001u, 0x7f800000u, 0xff800000u});
+  plain_sweep("deg2rad", FN(chk_deg2rad), FN(msg_deg2rad), D2R_CLS, 4, "relative error vs x*pi/180 (normal results)", {0x43340000u, 0x00000001u, 0x7f7fffffu, 0xff800000u});
   pack_sweep<PACK_LIN>("cvt_uint32");
   pack_sweep<PACK_SRGB>("srgb8_pack");
-  plain_sweep("makeRandomColor", chk_mrc, msg_mrc, MRC_CLS, 4, "largest component returned", {0u, 1u, 0xffffffffu});
+  plain_sweep("makeRandomColor", FN(chk_mrc), FN(msg_mrc), MRC_CLS, 4, "largest component returned", {0u, 1u, 0xffffffffu});
 }
 PBT_MAIN(C07_BIN)
